@@ -245,6 +245,8 @@ structure WrapObs where
   checkHostname : Bool
   caGiven : Bool
   tlsInTls : Bool
+  /-- `context.load_default_certs()` was called on the context before it was handed over -/
+  loadDefault : Bool
   deriving DecidableEq, Repr, Inhabited
 
 inductive WrapRes
@@ -287,7 +289,8 @@ def wrapAndMatch (env : Env) (isIp : Str → Bool) (p : PeerOracle)
   -- ssl_wrap_socket: load_verify_locations when CA material was given, then the handshake
   let trust : Trust := { configured := caGiven, system := loadDefault, own := context.ownCA }
   let obs : WrapObs := { serverHostname := serverHostname, verifyMode := context.verifyMode,
-                         checkHostname := context.checkHostname, caGiven := caGiven, tlsInTls := tlsInTls }
+                         checkHostname := context.checkHostname, caGiven := caGiven, tlsInTls := tlsInTls,
+                         loadDefault := loadDefault }
   if tlsInTls && context.kind == .pyopenssl then .wrapFailed obs .proxySchemeUnsupported
   else if !handshakeOk context trust serverHostname p then .wrapFailed obs .sslError
   else
@@ -386,9 +389,16 @@ def connect (cfg : Cfg) (o : Oracle) : ConnRes :=
 
 /-! ## `_validate_conn`, and the slice of `urlopen` around it -/
 
-/-- `if not conn.is_verified and not conn.proxy_is_verified: warnings.warn(… InsecureRequestWarning)` -/
-def validateConn (k : Connected) : Bool :=
-  !k.isVerified && !(k.proxyIsVerified == some true)
+/-- ```
+proxy_is_verified = conn.proxy_is_verified and not getattr(conn, "proxy_is_tunneling", False)
+if not conn.is_verified and not proxy_is_verified: warnings.warn(… InsecureRequestWarning)
+```
+`conn.proxy_is_tunneling` is `self._tunnel_host is not None`, i.e. `cfg.mode.tunneling`: a verified
+proxy stands in for the destination only when the request is forwarded to it; inside a CONNECT
+tunnel the destination's own TLS session decides. -/
+def validateConn (cfg : Cfg) (k : Connected) : Bool :=
+  let proxyIsVerified := k.proxyIsVerified == some true && !cfg.mode.tunneling
+  !k.isVerified && !proxyIsVerified
 
 /-- exception classes as they leave `urlopen(retries=False)` -/
 inductive Exc
@@ -429,7 +439,7 @@ def urlopenOnce (cfg : Cfg) (o : Oracle) : Outcome :=
       events := [.tcp] ++ wraps.map .wrap ++ [.close] }
   | .connected k =>
     { result := .ok k,
-      events := [.tcp] ++ k.wraps.map .wrap ++ (if validateConn k then [.warn] else []) ++ [.request] }
+      events := [.tcp] ++ k.wraps.map .wrap ++ (if validateConn cfg k then [.warn] else []) ++ [.request] }
 
 def Outcome.requestSent (r : Outcome) : Bool := r.events.any fun | .request => true | _ => false
 def Outcome.warned (r : Outcome) : Bool := r.events.any fun | .warn => true | _ => false
